@@ -66,6 +66,12 @@ class Harness:
         self.acts = M.flat_actions(spec)
         self.flat = bool(self.modes.get("flat_actions", True))
         self.real_actions = list(self.env.action_space.actions)
+        first_e, first_p = {}, {}
+        for n_, d_ in spec.exploits.items():
+            first_e.setdefault((d_["service"], d_["os"]), n_)
+        for n_, d_ in spec.privescs.items():
+            first_p.setdefault((d_["process"], d_["os"]), n_)
+        self.expressible = set(first_e.values()) | set(first_p.values())
         self.real_index = {}
         for i, a in enumerate(self.real_actions):
             self.real_index.setdefault(real_key(a), i)
@@ -99,6 +105,11 @@ class Harness:
         i = self.real_index[act.key()]
         if self.flat:
             return int(i)
+        # parameterised space: the documented parameter vector where the action is expressible
+        # (first definition per (service, OS) / (process, OS)), else the Action object
+        if act.kind not in ("exploit", "privesc") or act.name in self.expressible:
+            from .check_c12 import vector_of
+            return vector_of(self.spec, act)
         return self.real_actions[i]
 
     def dyn(self, tensor):
